@@ -102,7 +102,8 @@ def run_case(case):
     res = common.CaseResult()
     ks, default = case["ks"], bytes.fromhex(case["default"])
     depth = 8 * ks
-    smt = SparseMerkleTree(key_size=ks, default=default)
+    # arguments equal to the constructor's defaults (key_size=32, default=b"") are left out, as callers do
+    smt = SparseMerkleTree(**dict(([("key_size", ks)] if ks != 32 else []) + ([("default", default)] if default != b"" else [])))
     res.emit("smt.reset", "ok")
     res.emit("smt.new %d %s" % (ks, hx(default)), "0")
     initial_root = smt.root_hash
@@ -117,7 +118,7 @@ def run_case(case):
         want = merkle_root(depth, default, model)
         if smt.root_hash != want:
             res.fail("root-not-merkle-root", "root %s, Merkle root of the full tree with contents %r is %s"
-                     % (smt.root_hash.hex()[:16], sorted(model.items()), want.hex()[:16]))
+                     % (common.hx(smt.root_hash)[:16], sorted(model.items()), want.hex()[:16]))
         if not model and smt.root_hash != initial_root:
             res.fail("cleared-root-not-initial", "everything is cleared but the root differs from the initial root")
         # from_db's key_size defaults to 32 and the constructor's defaults are key_size=32, default=b"": leave out what
